@@ -163,7 +163,17 @@ EXPORT errno_t _wcsfc_s_chk(wchar_t *restrict dest, rsize_t dmax,
     while (*src && dmax > 0) {
         wchar_t tmp[4];
         uint32_t cp = _dec_w16((wchar_t *)src);
-        int c = iswfc(cp);
+        int c;
+#if SIZEOF_WCHAR_T > 2
+        if (unlikely(_UNICODE_MAX < cp)) {
+            handle_werror(orig_dest, orig_dmax,
+                          "wcsfc_s: "
+                          "cp is too high",
+                          ESLEMAX);
+            return ESLEMAX;
+        }
+#endif
+        c = iswfc(cp);
 #if SIZEOF_WCHAR_T == 2
         if (cp > 0xffff)
             src++;
